@@ -67,7 +67,23 @@ fn res3<T, E: std::fmt::Debug>(q: std::thread::Result<Result<T, E>>) -> (&'stati
 
 /// one scenario of `steps` random container operations; returns the number of operations
 pub fn run_random(rng: &mut Rng, tr: &mut Trace, seg: u64, steps: usize) -> usize {
-    let len = *rng.pick(&[0usize, 1, 7, 8, 9, 16, 64, 4097]);
+    run(rng, tr, seg, steps, None)
+}
+
+/// deterministic scenario: every container entry point once, in a fixed order, on a 64-byte buffer
+/// (addresses/lengths from a generator with a fixed seed)
+pub fn run_scripted(tr: &mut Trace, seg: u64) -> usize {
+    const SCRIPT: [&str; 18] = [
+        "fvs.write", "fvs.read", "fvs.write_slice", "fvs.read_slice", "fvs.store", "fvs.load", "fvs.offset", "fvs.view",
+        "fvs.read_volatile_from", "fvs.read_exact_volatile_from", "fvs.write_volatile_to", "fvs.write_all_volatile_to",
+        "fvs.borrow_as_buf", "buf.set_size", "buf.fill", "buf.peek", "buf.new", "buf.peek",
+    ];
+    let mut rng = Rng::new(20260923);
+    run(&mut rng, tr, seg, SCRIPT.len(), Some(&SCRIPT))
+}
+
+fn run(rng: &mut Rng, tr: &mut Trace, seg: u64, steps: usize, script: Option<&[&'static str]>) -> usize {
+    let len = if script.is_some() { 64 } else { *rng.pick(&[0usize, 1, 7, 8, 9, 16, 64, 4097]) };
     let mut cx = Ctx { backing: vec![CANARY; len + 2 * MARGIN], len, objs: Vec::new() };
     for i in 0..len {
         cx.backing[MARGIN + i] = ((FBASE as usize + i) % M as usize) as u8;
@@ -78,15 +94,25 @@ pub fn run_random(rng: &mut Rng, tr: &mut Trace, seg: u64, steps: usize) -> usiz
     };
     cx.objs.push(Obj::S(root));
     let w0 = cx.win(0);
-    tr.emit(&json!({"e":"Reset","seg":seg,"tr":"fvs","P":crate::PAGE,"segs":[[FBASE, len, 1]],"win":w0,"origin":format!("random:{}", seg)}));
+    tr.emit(&json!({"e":"Reset","seg":seg,"tr":"fvs","P":crate::PAGE,"segs":[[FBASE, len, 1]],"win":w0,"origin":format!("{}:{}", if script.is_some() { "targeted" } else { "random" }, seg)}));
     for i in 1..=steps {
-        let oi = rng.below(cx.objs.len() as u64) as usize;
+        let forced: Option<&'static str> = script.map(|sc| sc[i - 1]);
+        let oi = match forced {
+            // scripted: slice operations on the root slice, buffer operations on the newest buffer
+            Some(f) if f.starts_with("buf.") && f != "buf.new" => {
+                cx.objs.iter().rposition(|o| matches!(o, Obj::B(_))).expect("script: buffer operation before a buffer exists")
+            }
+            Some(_) => 0,
+            None => rng.below(cx.objs.len() as u64) as usize,
+        };
         let is_slice = matches!(cx.objs[oi], Obj::S(_));
         let olen = match &cx.objs[oi] {
             Obj::S(s) => s.len(),
             Obj::B(b) => b.cap(),
         };
-        let op: &str = if is_slice {
+        let op: &str = if let Some(f) = forced {
+            f
+        } else if is_slice {
             *rng.pick(&[
                 "fvs.write", "fvs.read", "fvs.write_slice", "fvs.read_slice", "fvs.read_slice", "fvs.store", "fvs.load",
                 "fvs.offset", "fvs.view", "fvs.read_volatile_from", "fvs.read_exact_volatile_from", "fvs.write_volatile_to",
